@@ -747,6 +747,17 @@ fn run_case_inner(
                     out.end
                 ));
             }
+            // ... and terminated because of the failure, not by a keep-alive expiry or the peer's
+            // own close some time later (until then a client would wait for the missing bytes or
+            // take the next response's bytes for them)
+            if let Some(t_drop) = handled.iter().position(|&h| h == i).and_then(|k| out.resps.get(k)).and_then(|r| r.dropped_at) {
+                if out.end_at > t_drop + 200 {
+                    return v.fail_with(format!(
+                        "response {i}: body failed/ended short at {t_drop} ms but the connection lived on until {} ms (end={:?})",
+                        out.end_at, out.end
+                    ));
+                }
+            }
         }
     }
     // a response whose body failed / ended short may be missing altogether (its head was still
